@@ -23,7 +23,7 @@ DIMS = {
                     ["aes128gcm", "aes128"], "reversed"],
     "macNames": [None, ["sha"], ["sha256"], ["aead"], ["sha384", "aead"], ["sha", "md5"]],
     "keyExchangeNames": [None, ["rsa"], ["dhe_rsa"], ["ecdhe_rsa"], ["ecdhe_ecdsa"], ["ecdhe_rsa", "rsa"]],
-    "eccCurves": [None, ["secp256r1"], ["x25519"], ["secp384r1", "secp521r1"], ["x448", "secp256r1"]],
+    "eccCurves": [None, ["secp256r1"], ["x25519"], ["secp384r1", "secp521r1"], ["x448", "secp256r1"], []],
     "dhGroups": [None, ["ffdhe2048"], ["ffdhe3072", "ffdhe4096"]],
     "keySize": [None, (2048, 8193), (1023, 1536), (512, 1024)],
     "useEncryptThenMAC": [None, False],
@@ -31,7 +31,7 @@ DIMS = {
     "record_size_limit": [None, 64, 0, 16384, 1000],
     "alpn": [None, [b"h2", b"http/1.1"], [b"http/1.1"], [b"spdy/3"]],
 }
-SERVER_CREDS = ["rsa", "ecdsa"]
+SERVER_CREDS = ["rsa", "ecdsa", "rsapss", "rsa+req", "rsa+reqnone", "ecdsa+req"]
 
 
 def make_settings(choice):
@@ -57,11 +57,15 @@ def make_settings(choice):
             alpn = [bytearray(x) for x in r]
         elif dim == "eccCurves":
             hs.eccCurves = list(r)
-            hs.keyShares = [r[0]]
+            if r:
+                hs.keyShares = [r[0]]
         elif r == "reversed":
             setattr(hs, dim, list(reversed(getattr(hs, dim))))
         else:
             setattr(hs, dim, list(r) if isinstance(r, list) else r)
+    if not hs.eccCurves:
+        # only finite-field groups: the key share must be one of them
+        hs.keyShares = [hs.dhGroups[0]]
     return hs, alpn
 
 
@@ -97,7 +101,12 @@ def view(conn, role):
         x = s.serverCertChain.x509List[0]
         if x.certAlg in ("rsa", "rsa-pss", "dsa"):
             keybits = len(x.publicKey)
-    return {"ver": ver, "tokens": CipherSuite.ietfNames[s.cipherSuite].split("_"),
+    cltbits = 0
+    if role == "s" and s.clientCertChain is not None and getattr(s.clientCertChain, "x509List", None):
+        x = s.clientCertChain.x509List[0]
+        if x.certAlg in ("rsa", "rsa-pss", "dsa"):
+            cltbits = len(x.publicKey)
+    return {"ver": ver, "tokens": CipherSuite.ietfNames[s.cipherSuite].split("_"), "cltKeyBits": cltbits,
             "ems": bool(s.extendedMasterSecret) if ver < 4 else False,
             "etm": bool(conn._recordLayer._writeState.encryptThenMAC),
             "alpn": bytes(s.appProto).decode() if s.appProto else "",
@@ -143,17 +152,26 @@ def _run_pair(idx, cchoice, schoice, scred):
     except ValueError as e:
         return {"skip": "settings rejected by validate(): %s" % e}
     p = Pair("c03-%d" % idx)
+    scred_full = scred
+    scred, _, ca = scred.partition("+")
     ch, key = cred(scred)
     ckw = dict(settings=chs, serverName="host.example")
+    cltbits = 0
+    if ca == "req":
+        cch, ckey = cred("c_rsa")
+        ckw["certChain"], ckw["privateKey"] = cch, ckey
+        cltbits = len(cch.x509List[0].publicKey)
     if calpn:
         ckw["alpn"] = calpn
     skw = dict(certChain=ch, privateKey=key, settings=shs)
+    if ca:
+        skw["reqCert"] = True
     if salpn:
         skw["alpn"] = salpn
     st, co, so = p.handshake(ckw=ckw, skw=skw)
     ok = co.ok and so.ok
-    certbits = len(ch.x509List[0].publicKey) if scred == "rsa" else 0
-    cfg = {"ev": "CFG", "cs": cabs, "ss": sabs, "certKey": scred, "certBits": certbits,
+    certbits = len(ch.x509List[0].publicKey) if scred in ("rsa", "rsapss") else 0
+    cfg = {"ev": "CFG", "cs": cabs, "ss": sabs, "certKey": scred, "certBits": certbits, "cltBits": cltbits, "clientAuth": ca,
            "certCurve": "secp256r1" if scred == "ecdsa" else "", "candidates": candidates()}
     res = {"ev": "RES", "ok": ok, "cfail": co.exc is not None, "sfail": so.exc is not None,
            "c_out": co.describe(), "s_out": so.describe(), "status": st}
@@ -165,9 +183,18 @@ def _run_pair(idx, cchoice, schoice, scred):
         o = p.read("s", None, 4)
         res["data"] = bool(o.ok and bytes(o.value or b"") == b"ping")
     else:
-        # one side succeeded and the other did not: wait for the other to notice
+        # one side succeeded and the other did not (TLS 1.3 client authentication is judged by the server after the
+        # client has finished): the other side notices on its next read
+        if co.ok and not so.ok:
+            o = p.read("c", None, 1)
+            res["cfail"] = o.exc is not None
+            res["c_out"] = "late:" + o.describe()
+        elif so.ok and not co.ok:
+            o = p.read("s", None, 1)
+            res["sfail"] = o.exc is not None
+            res["s_out"] = "late:" + o.describe()
         res["c"] = res["s"] = {}
-    return {"trace": [cfg, res], "job": [idx, cchoice, schoice, scred]}
+    return {"trace": [cfg, res], "job": [idx, cchoice, schoice, scred_full]}
 
 
 def enumerate_jobs(tier, seed):
@@ -193,8 +220,8 @@ def enumerate_jobs(tier, seed):
                 sc = dict(base)
                 cc[d1] = r1
                 sc[d2] = r2
-                for cr in SERVER_CREDS:
-                    if cr == "ecdsa" and (len(jobs) + seed) % 3 and tier == "quick":
+                for ci, cr in enumerate(SERVER_CREDS):
+                    if cr != "rsa" and (len(jobs) + seed + ci) % 3 and tier == "quick":
                         continue
                     add(cc, sc, cr)
     extra = 300 if tier == "quick" else 4000
